@@ -234,8 +234,8 @@ func runSchedule(b, hb *tv.Batch, prog program, seed int64, force []string) resu
 	err := d.Run()
 	if err == nil {
 		// final phase: move the clock past every deadline and let everything drain
-		rec.ev("adv", tv.M{"now": nowTicks() + 1000})
-		clk.Step(1000 * tick)
+		rec.ev("adv", tv.M{"now": nowTicks() + 26*36_000_000})
+		clk.Step(26 * 36_000_000 * tick)
 		d2 := &sched.Driver{C: ctl, Rng: rng, MaxSteps: 400, AtQuiescence: d.AtQuiescence}
 		err = d2.Run()
 		d.Log = append(d.Log, d2.Log...)
@@ -267,7 +267,7 @@ func runSchedule(b, hb *tv.Batch, prog program, seed int64, force []string) resu
 
 func genProgram(rng *rand.Rand) program {
 	keys := []string{"a", "b", "c"}
-	dts := []int{0, 0, 3, 5, 6, 10, 20, 50, -1}
+	dts := []int{0, 0, 3, 5, 6, 10, 20, 50, -1, 25 * 36_000_000}
 	nc := 1 + rng.Intn(3)
 	total := 2 + rng.Intn(4)
 	p := program{Clients: make([][]opSpec, nc), BlockCb: rng.Intn(4) == 0}
@@ -287,7 +287,7 @@ func genProgram(rng *rand.Rand) program {
 		}
 	}
 	for i := 0; i < rng.Intn(4); i++ {
-		p.Advances = append(p.Advances, []int{1, 4, 5, 6, 10, 30}[rng.Intn(6)])
+		p.Advances = append(p.Advances, []int{1, 4, 5, 6, 10, 30, 24 * 36_000_000}[rng.Intn(7)])
 	}
 	if p.Advances == nil {
 		p.Advances = []int{}
@@ -340,6 +340,8 @@ func TestCheck(t *testing.T) {
 			Prefix: []string{"start:c0:enq", "release:queue.enqueue.enter", "release:queue.loop.peeked", "release:queue.loop.signals", "release:queue.exec.enter", "release:queue.exec.popped"}},
 		{Clients: [][]opSpec{{{Op: "enq", Key: "a", Dt: 6}}, {{Op: "enq", Key: "a", Dt: 6000}}}, Advances: []int{1, 5}},
 		{Clients: [][]opSpec{{{Op: "enq", Key: "n", Dt: -1}, {Op: "enq", Key: "a", Dt: 5}}, {{Op: "enq", Key: "b", Dt: 0}}}, Advances: []int{6}},
+		// an item more than a day ahead: nothing may run when the clock has moved 24 h, it runs after 25 h (1 h = 36e6 ticks)
+		{Clients: [][]opSpec{{{Op: "enq", Key: "a", Dt: 25 * 36_000_000}}, {{Op: "enq", Key: "b", Dt: 3}}}, Advances: []int{24 * 36_000_000, 35_000_000, 1_000_000}},
 	}
 	nStaged := ev.Pick(25, 600)
 	nRandProg := ev.Pick(170, 6000)
@@ -380,7 +382,7 @@ func TestCheck(t *testing.T) {
 			idx = append(idx, i)
 		}
 	}
-	missing, res := tv.ValidateDone(tlc.Opts{Dir: "Processor", Module: "TraceProc", Config: "TraceProc.cfg", Workers: 16, Timeout: ev.Pick(6*time.Minute, 40*time.Minute), HeapMB: 12000}, jb)
+	missing, res := tv.ValidateDoneChunked(tlc.Opts{Dir: "Processor", Module: "TraceProc", Config: "TraceProc.cfg", Workers: 16, Timeout: ev.Pick(6*time.Minute, 40*time.Minute), HeapMB: 12000}, jb)
 	fmt.Printf("TLC contract validation: ok=%v traces=%d rejected=%d distinct=%d wall=%s %s\n", res.OK, jb.Len(), len(missing), res.Distinct, res.Wall.Round(time.Millisecond), res.What)
 	if !res.OK {
 		e.Inconclusive("trace validation did not run: " + res.What + res.Tail(1500))
@@ -405,7 +407,7 @@ func TestCheck(t *testing.T) {
 			jhb.AppendTrace(hb.Trace(r.trace))
 		}
 	}
-	hmissing, hres := tv.ValidateDone(tlc.Opts{Dir: "Processor", Module: "TraceProcImpl", Config: "TraceProcImpl.cfg", Workers: 16, Timeout: ev.Pick(6*time.Minute, 40*time.Minute), HeapMB: 12000}, jhb)
+	hmissing, hres := tv.ValidateDoneChunked(tlc.Opts{Dir: "Processor", Module: "TraceProcImpl", Config: "TraceProcImpl.cfg", Workers: 16, Timeout: ev.Pick(6*time.Minute, 40*time.Minute), HeapMB: 12000}, jhb)
 	fmt.Printf("TLC model-binding validation (hook-level traces vs Processor.tla): ok=%v traces=%d not-explained=%d distinct=%d wall=%s %s\n", hres.OK, jhb.Len(), len(hmissing), hres.Distinct, hres.Wall.Round(time.Millisecond), hres.What)
 	e.Set("impl_traces_validated", int64(jhb.Len()))
 	e.Set("impl_drift_traces", int64(len(hmissing)))
@@ -509,7 +511,7 @@ func selfTest(e *ev.Evidence) {
 	mk("", false)   // fine
 	mk("cb", false) // due item never executed: stranded
 	mk("", true)    // executed 0.6 ms early
-	missing, res := tv.ValidateDone(tlc.Opts{Dir: "Processor", Module: "TraceProc", Config: "TraceProc.cfg", Workers: 2, Timeout: 2 * time.Minute}, b)
+	missing, res := tv.ValidateDoneChunked(tlc.Opts{Dir: "Processor", Module: "TraceProc", Config: "TraceProc.cfg", Workers: 2, Timeout: 2 * time.Minute}, b)
 	ok := res.OK && len(missing) == 2 && missing[0] == 1 && missing[1] == 2
 	e.Set("binding_selftest", tv.M{"valid_accepted_stranded_and_early_rejected": ok})
 	if !ok {
